@@ -932,7 +932,7 @@ def check_kernel_reproduces(case):
         try:
             if up == "values":
                 m.update_model_parameters(val2.copy(), ["values"])
-                ktype_, par, xm, vv = ktype, par, xmat, val2
+                xm, vv = xmat, val2
             elif up == "kernel":
                 m.update_model_parameters([k2], ["kernel"])
                 par, xm, vv = par2, xm2, val
